@@ -105,6 +105,23 @@ var c02Families = []c02Family{
 			return fmt.Sprintf("fragment F%d on Node { ... on User { ...F%d } ... on Bot { ...F%d } } ", i, i+1, i+1)
 		}) + fmt.Sprintf("fragment F%d on Node { id }", k)
 	}},
+	{"exclusive-parents-diamond", nil, func(k int) string {
+		// the same composite field under two object types that exclude each other; below it a diamond chain in which
+		// every fragment has a field of its own
+		return "{ node { ... on User { friend { id ...F0 } } ... on Bot { friend { id ...F0 } } } } " + rep(k, func(i int) string {
+			return fmt.Sprintf("fragment F%d on Node { name ...G%d ...H%d } fragment G%d on Node { id ...F%d } fragment H%d on Node { name ...F%d } ", i, i, i, i, i+1, i, i+1)
+		}) + fmt.Sprintf("fragment F%d on Node { id }", k)
+	}},
+	{"exclusive-parents-fanout", nil, func(k int) string {
+		return "{ me { friend { ... on User { x: friend { name ...F0 } } ... on Bot { x: friend { name ...F0 } } } } } " + rep(k, func(i int) string {
+			return fmt.Sprintf("fragment F%d on Node { id ...F%d friends { id } ...F%d } ", i, i+1, i+1)
+		}) + fmt.Sprintf("fragment F%d on Node { id }", k)
+	}},
+	{"exclusive-parents-diamond-in-fragments", nil, func(k int) string {
+		return "{ node { ...U ...B } } fragment U on User { friend { ...F0 nick: name } } fragment B on Bot { friend { nick: name ...F0 } } " + rep(k, func(i int) string {
+			return fmt.Sprintf("fragment F%d on Node { name ...G%d ...H%d } fragment G%d on Node { id ...F%d } fragment H%d on Node { name ...F%d } ", i, i, i, i, i+1, i, i+1)
+		}) + fmt.Sprintf("fragment F%d on Node { id }", k)
+	}},
 	{"cycle-through-fields", nil, func(k int) string {
 		return "{ node { ...F0 } } " + rep(k, func(i int) string { return fmt.Sprintf("fragment F%d on Node { friend { ...F%d } } ", i, (i+1)%k) })
 	}},
